@@ -75,6 +75,13 @@ func histVec(r *rand.Rand, dim int, style int) []float32 {
 			v[i] = coordPool[r.Intn(len(coordPool))]
 		case 1:
 			v[i] = float32(r.NormFloat64())
+		case 4: // clusters of very different radius along the first axis (a tight one, a wide one, a medium one)
+			if i == 0 {
+				c := r.Intn(3)
+				v[i] = float32(c*10) + []float32{0.05, 3, 1}[c]*float32(r.NormFloat64())
+			} else {
+				v[i] = 0.1 * float32(r.NormFloat64())
+			}
 		case 3: // fine scale: near-duplicates of the pool values, a few 1e-4 apart (distances far below 1e-6 that are NOT ties)
 			v[i] = coordPool[r.Intn(len(coordPool))] + float32(r.Intn(5)-2)/8192
 		default:
@@ -93,6 +100,7 @@ type vecHistOpts struct {
 	ntrain     int
 	gauss      bool
 	fine       bool // near-duplicate coordinates (style 3 of histVec)
+	radii      bool // clusters of very different radius (style 4)
 }
 
 type liveVec struct {
@@ -111,6 +119,9 @@ func runVecHistory(r *rand.Rand, p vecParams, o vecHistOpts, t *Trace) *Case {
 	style := r.Intn(3)
 	if o.fine {
 		style = 3
+	}
+	if o.radii {
+		style = 4
 	}
 	if o.gauss {
 		style = 1
